@@ -107,14 +107,15 @@ Definition single_byte_formats : list fmt :=
    Uint8; Uint16; Uint32; Uint64; Int8; Int16; Int32; Int64;
    FixExt1; FixExt2; FixExt4; FixExt8; FixExt16; Str8; Str16; Str32; Array16; Array32; Map16; Map32].
 
-(* first byte -> format: 0xxxxxxx, 1000xxxx, 1001xxxx, 101xxxxx, 111xxxxx, else the table *)
+(* first byte -> format: 0xxxxxxx, 1000xxxx, 1001xxxx, 101xxxxx, 111xxxxx, else the table
+   (anything that is not a byte is no format) *)
 Definition fmt_of (c : N) : fmt :=
   if c / 128 =? 0 then PosFixint
   else if c / 16 =? 8 then FixMap
   else if c / 16 =? 9 then FixArray
   else if c / 32 =? 5 then FixStr
-  else if c / 32 =? 6 then nth (N.to_nat (c - 192)) single_byte_formats NeverUsed
-  else NegFixint.
+  else if c / 32 =? 7 then NegFixint
+  else nth (N.to_nat (c - 192)) single_byte_formats NeverUsed.
 
 (* big-endian value of a byte string, most significant byte first *)
 Fixpoint be_val (bs : bytes) : N :=
